@@ -74,7 +74,9 @@ def handleStore (ro : Bool) (kind mode k oldS : String) (impl : String) : Verdic
     -- the property on the implementation's output: both what is on disk and what the real getter returned
     let ok := match field fsI "st" >>= parseStatus, field fsI "file", field fsI "get" with
       | some ist, some ifile, some iget =>
-        decide (P18 old newB ist (unclassify old newB ifile)) && decide (P18 old newB ist (unclassify old newB iget))
+        decide (P18 old newB ist (unclassify old newB ifile)) && decide (P18 old newB ist (unclassify old newB iget)) &&
+          -- atomic_store_no_fault / atomic_fail_no_litter: no temp file survives a store that RETURNED (ok or err)
+          (left != 0 || field fsI "left" == some "0")
       | _, _, _ => false
     let big := if b ≥ 1048576 then "1M" else if b ≥ 65536 then "64k" else if b ≥ 4096 then "4k" else "small"
     let tag := s!"{if ro then "storero" else "store"}:{kind}:{mode}:{showStatus st}:{(file.take 3).toString}:old={oldS != "-"}:same={c}:{big}"
@@ -154,7 +156,7 @@ def handleSeq (kind steps : String) (impl : String) : Verdict := Id.run do
     let gobs := unclassifySeq seen o.get
     match parseStatus o.st with
     | some ist =>
-      ok := ok && decide (P18 prevObs newB ist obs) && decide (P18 prevGet newB ist gobs)
+      ok := ok && decide (P18 prevObs newB ist obs) && decide (P18 prevGet newB ist gobs) && (left != 0 || o.left == 0)
     | none => ok := false
     prevObs := obs
     prevGet := gobs
@@ -209,8 +211,9 @@ def handleObj (kind steps : String) (impl : String) : Verdict := Id.run do
           ok := ok && fobs == some newB
           allowed := [some newB]
         else if ist = "err" then
-          ok := ok && (allowed.contains fobs || fobs == some newB)
-          allowed := allowed ++ [some newB]
+          -- atomic_store_exact: a store that reported an error left the target untouched
+          ok := ok && allowed.contains fobs
+          allowed := [fobs]
         else ok := false
       | _, _ => return ⟨"UNPARSABLE", false, "obj:unparsable"⟩
     j := j + 1
@@ -245,7 +248,7 @@ def handleLife (kind spelling sibs steps : String) (impl : String) : Verdict := 
       | _ => ok := false
     else
       match spec.splitOn ":", o with
-      | [mode, k, _], ["s", c, l, ist, ifile, _ileft, isib] =>
+      | [mode, k, _], ["s", c, l, ist, ifile, ileft, isib] =>
         let some c := c.toNat? | return ⟨"UNPARSABLE", false, "life:unparsable"⟩
         let some l := l.toNat? | return ⟨"UNPARSABLE", false, "life:unparsable"⟩
         let k := k.toNat?.getD 0
@@ -269,9 +272,11 @@ def handleLife (kind spelling sibs steps : String) (impl : String) : Verdict := 
           ok := ok && fobs == some newB
           allowed := [some newB]
         else if ist = "err" || ist = "died" then
-          ok := ok && (allowed.contains fobs || fobs == some newB)
-          allowed := allowed ++ [some newB]
+          -- atomic_store_exact: a store that reported an error, or died, left the target untouched
+          ok := ok && allowed.contains fobs
+          allowed := [fobs]
         else ok := false
+        if left == 0 then ok := ok && ileft == "0"
       | _, _ => return ⟨"UNPARSABLE", false, "life:unparsable"⟩
     j := j + 1
   return ⟨joinOr ms "/", ok, s!"life:{kind}:{spelling}:sib={min nsib 3}:dies={min dies 2}"⟩
